@@ -168,31 +168,6 @@ def main(arguments, sqlite_file_path: str, export_sub_paths=False):
         # The file prefix is taken from the base version name if not specified
         file_prefix = basename(normpath(sqlite_file_path))
 
-    # Setup the directory if specified
-    output_directory = None
-    if arguments.directory:
-        if not exists(arguments.directory):
-            if not create_directory(arguments.directory):
-                raise OSError(
-                    "Unable to create the new output directory: {}", arguments.directory
-                )
-        output_directory = arguments.directory
-        # Determine if there are sub-paths being configured for exports
-        if export_sub_paths:
-            # Generate unique subpath and create the directory
-            subpath = file_prefix.replace(".", "-") + "-" + str(uuid.uuid4().hex)
-            if create_directory(join(output_directory, subpath)):
-                output_directory = join(output_directory, subpath)
-            else:
-                raise OSError(
-                    "Unable to create the new sub-directory: {}",
-                    join(output_directory, subpath),
-                )
-
-    logger.debug(
-        f"Determined export type to be {export_types} with file prefix: {file_prefix} and output directory: {output_directory}"
-    )
-
     # Obtain the SQLite file
     if not exists(sqlite_file_path):
         raise SqliteError(f"Unable to find SQLite file: {sqlite_file_path}.")
@@ -268,7 +243,7 @@ def main(arguments, sqlite_file_path: str, export_sub_paths=False):
             """
 
             raise SqliteError(
-                f"Found a zero length SQLite file with a wal file: {arguments.wal}.  Unable to parse."
+                f"Found a zero length SQLite file with a wal file: {wal_file_name}.  Unable to parse."
             )
 
         elif zero_length_wal_file:
@@ -287,7 +262,7 @@ def main(arguments, sqlite_file_path: str, export_sub_paths=False):
             """
 
             raise SqliteError(
-                f"Found a zero length SQLite file with a rollback journal file: {arguments.rollback_journal}.  "
+                f"Found a zero length SQLite file with a rollback journal file: {rollback_journal_file_name}.  "
                 f"Unable to parse."
             )
 
@@ -319,9 +294,34 @@ def main(arguments, sqlite_file_path: str, export_sub_paths=False):
         """
 
         raise SqliteError(
-            f"Found both a rollback journal: {arguments.rollback_journal} and wal file: {arguments.wal}.  "
+            f"Found both a rollback journal: {rollback_journal_file_name} and wal file: {wal_file_name}.  "
             f"Only one journal file should exist. Unable to parse."
         )
+
+    # Setup the directory if specified
+    output_directory = None
+    if arguments.directory:
+        if not exists(arguments.directory):
+            if not create_directory(arguments.directory):
+                raise OSError(
+                    "Unable to create the new output directory: {}", arguments.directory
+                )
+        output_directory = arguments.directory
+        # Determine if there are sub-paths being configured for exports
+        if export_sub_paths:
+            # Generate unique subpath and create the directory
+            subpath = file_prefix.replace(".", "-") + "-" + str(uuid.uuid4().hex)
+            if create_directory(join(output_directory, subpath)):
+                output_directory = join(output_directory, subpath)
+            else:
+                raise OSError(
+                    "Unable to create the new sub-directory: {}",
+                    join(output_directory, subpath),
+                )
+
+    logger.debug(
+        f"Determined export type to be {export_types} with file prefix: {file_prefix} and output directory: {output_directory}"
+    )
 
     # Print a message parsing is starting and log the start time for reporting at the end on amount of time to run
     logger.info(f"\nParsing: {sqlite_file_path}...")
